@@ -173,7 +173,7 @@ fn build(tier: Tier) -> Vec<Scenario> {
             }
         }
     }
-    let len = if tier == Tier::Quick { 5 } else { 7 };
+    let len = if tier == Tier::Quick { 6 } else { 7 };
     for part in 0..4i64 {
         out.push(loop_scenario(
             format!("C16/reorder/len{len}/part{part}"),
